@@ -713,7 +713,9 @@ func replayAll(l *Loaded, results []*HarnessResult, viols []*Violation, paths ma
 	outDir := filepath.Join(VerifDir, "out", "replays", opts.Prop)
 	os.RemoveAll(outDir)
 	os.MkdirAll(outDir, 0o755)
-	overlay, err := writeOverlayFiles(l.Dirs, filepath.Join(VerifDir, "out", "overlay"))
+	// one overlay directory per property, so that checks of different properties can
+	// run side by side without rewriting each other's files mid-compile
+	overlay, err := writeOverlayFiles(l.Dirs, filepath.Join(VerifDir, "out", "overlay-"+opts.Prop))
 	if err != nil {
 		return 0, []string{"cannot write overlay: " + err.Error()}
 	}
@@ -857,7 +859,7 @@ func Replay(path string) int {
 		return 2
 	}
 	dirs := harnessDirs()
-	overlay, err := writeOverlayFiles(dirs, filepath.Join(VerifDir, "out", "overlay"))
+	overlay, err := writeOverlayFiles(dirs, filepath.Join(VerifDir, "out", "overlay-replay"))
 	if err != nil {
 		fmt.Fprintln(os.Stderr, err)
 		return 2
